@@ -8,13 +8,15 @@ XInclude are resolved by the tokenisers *before* this interface; they are
 invisible to the model by construction and are covered by the byte-level
 correspondence of `harness/props/c09.py` only.  What can be proved here is
 independence from attribute order, ignorable white space, padding of
-non-string values and the prefix maps. -/
+non-string values and the prefix maps; section 6 adds the one place where the
+handlers depend on how the bytes arrive (the read chunks of the tokeniser). -/
 import XsdataModel.Proofs.C09Strip
 import XsdataModel.Proofs.C09Ws
 import XsdataModel.Proofs.C09Data
 import XsdataModel.Proofs.C09Ns
 import XsdataModel.Proofs.C09Xsi
 import XsdataModel.Proofs.C09Attrs
+import XsdataModel.Proofs.C09Chunks
 
 namespace Props.C09
 open Py Xs.Bind Proofs.C09
@@ -346,5 +348,54 @@ theorem prefix_invariant_witness :
     Data.attrsOf (parseRoot Data.benv Data.ctx {} "Root".toList Data.rootDocPP) "attrs"
       = some [("k".toList, "p:bar".toList)] := by
   decide
+
+/-! ## 6. where the read chunks of the tokeniser end (`Backends/Chunks.lean`)
+
+The handlers sit between the tokeniser and the `Tree` the sections above start from.  The one thing
+they read that depends on *how the bytes arrive* is `element.tail`. -/
+
+open Xs.Backends in
+/-- **deferred_tail_complete**: pushing the end of an element to the parser when the next event
+arrives (or when the stream is over) passes the tail of the infoset for every element — for every
+document, every way of cutting it into read chunks (also inside the character data), and whatever
+the tree shows of an unfinished tail (`pv`). -/
+theorem deferred_tail_complete (pv : List CTok → Option Str) (chunks : List (List CTok)) :
+    deferredReads pv chunks = specReads chunks.flatten :=
+  deferredReads_eq pv chunks
+
+open Xs.Backends in
+/-- **chunking_irrelevant**: two ways of cutting the same document into read chunks (e.g. after a long
+comment or more white space was inserted in front) give the same tails, also for two tokenisers that
+differ in what they show of an unfinished tail. -/
+theorem chunking_irrelevant (pv pv' : List CTok → Option Str) (chunks chunks' : List (List CTok))
+    (h : chunks.flatten = chunks'.flatten) : deferredReads pv chunks = deferredReads pv' chunks' := by
+  rw [deferred_tail_complete, deferred_tail_complete, h]
+
+open Xs.Backends in
+/-- the statement for a handler that reads `element.tail` while handling the END event (the code before
+the repair) -/
+def EagerTailComplete : Prop :=
+  ∀ (pv : List CTok → Option Str) (chunks : List (List CTok)), eagerReads pv chunks = specReads chunks.flatten
+
+open Xs.Backends in
+/-- `<r><t>x</t>` | `TAIL<t/></r>`: the first read chunk ends right behind `</t>` -/
+def chunkWitness : List (List CTok) :=
+  [[.tag false "r".toList, .tag false "t".toList, .chars "x".toList, .tag true "t".toList],
+   [.chars "TAIL".toList, .tag false "t".toList, .tag true "t".toList, .tag true "r".toList]]
+
+open Xs.Backends in
+/-- **eager_tail_counterexample**: … is false: the tail `TAIL` of the first `<t>` is not in the tree yet
+when its END event is handled (former finding c09-tail-chunk-boundary, reproduced on the real handlers
+with a source that is read in these two pieces). -/
+theorem eager_tail_counterexample : ¬ EagerTailComplete := by
+  intro h
+  have := h (fun _ => none) chunkWitness
+  revert this
+  decide
+
+open Xs.Backends in
+example : deferredReads (fun _ => none) chunkWitness = [some "TAIL".toList, none, none] := by decide
+open Xs.Backends in
+example : eagerReads (fun _ => none) chunkWitness = [none, none, none] := by decide
 
 end Props.C09
